@@ -1,5 +1,6 @@
 (* driver for the Union model (C07): replays the Go driver's transcript on the extracted model
-   (faithful buffer, in-place overwrite on) and prints every result that differs. *)
+   (faithful buffer: in-place overwrite on, flags, Len/Size, limits, write sequence number) and prints
+   every result that differs. *)
 let kvs_string (l : (n list * n list) list) : string =
   if l = [] then "-" else
   String.concat "," (List.map (fun (k, v) -> hex_of_bytes k ^ ":" ^ hex_of_bytes v) l)
@@ -10,42 +11,68 @@ let parse_kvs (s : string) : (n list * n list) list =
     | [k; v] -> (bytes_of_hex k, bytes_of_hex v)
     | _ -> failwith "parse_kvs") (String.split_on_char ',' s)
 
+let parse_fops (s : string) : nat list =
+  if s = "-" then [] else List.map (fun x -> nat_of_int (int_of_string x)) (String.split_on_char ',' s)
+
+let dec_of_n (x : n) : string = string_of_int (int_of_n x)
+
 let () =
-  let snap = ref [] and st = ref mbuf_empty and target = ref "" in
+  let snap = ref [] and st = ref xbuf_empty and target = ref "" and prev_wseq = ref N0 in
   let cps : (string, nat) Hashtbl.t = Hashtbl.create 16 in
   let n = ref 0 and mism = ref 0 and progs = ref 0 in
   let counts = Hashtbl.create 64 in
   let bump k = Hashtbl.replace counts k (1 + (try Hashtbl.find counts k with Not_found -> 0)) in
-  let status s = match int_of_nat s with 0 -> "ok" | 1 -> "err" | _ -> "panic" in
+  let status s = match int_of_nat s with 0 -> "ok" | 1 -> "err" | 2 -> "panic" | 3 -> "entrytoolarge" | _ -> "txntoolarge" in
   read_lines (fun line ->
     match split_tab line with
     | "PROG" :: _ :: tg :: sn :: _ ->
-        incr progs; target := tg; snap := parse_kvs sn; st := mbuf_empty; Hashtbl.reset cps
+        incr progs; target := tg; snap := parse_kvs sn; st := xbuf_empty; Hashtbl.reset cps
     | "O" :: pid :: idx :: kind :: rest ->
         let rec split acc l = match l with "=>" :: r -> (List.rev acc, r) | x :: r -> split (x :: acc) r | [] -> (List.rev acc, []) in
         let (args, res) = split [] rest in
         let impl = String.concat " " res in
         let a i = List.nth args i in
-        let apply o = let s = status (op_status !st o) in st := step true !st o; s in
+        let apply o = prev_wseq := !st.x_wseq; let (s', r) = xstep !st o in st := s'; status r in
+        let b () = !st.x_b in
         let m = (try
           match kind with
-          | "set" -> apply (OSet (bytes_of_hex (a 0), bytes_of_hex (a 1)))
-          | "del" -> apply (ODel (bytes_of_hex (a 0)))
-          | "get" -> (match m_get !snap !st (bytes_of_hex (a 0)) with
+          | "set" -> apply (XWrite (bytes_of_hex (a 0), bytes_of_hex (a 1), parse_fops (a 2)))
+          | "del" -> apply (XDelete (bytes_of_hex (a 0), parse_fops (a 1)))
+          | "uflags" -> apply (XFlags (bytes_of_hex (a 0), parse_fops (a 1)))
+          | "limits" -> apply (XLimits (n_of_hex (a 0), n_of_hex (a 1)))
+          | "stale" -> if !st.x_wseq = !prev_wseq then "ok" else "panic"
+          | "get" -> (match m_get !snap (b ()) (bytes_of_hex (a 0)) with
                       | Some v -> "v " ^ hex_of_bytes v | None -> "nf")
           | "bget" ->
               let keys = List.map bytes_of_hex (String.split_on_char ',' (a 0)) in
-              let (handed, r) = m_batch_get !snap !st keys in
+              let (handed, r) = m_batch_get !snap (b ()) keys in
               let hs = if handed = [] then "none" else String.concat "," (List.map hex_of_bytes handed) in
               let hs = if !target = "txn" then "?" else hs in
               "handed=" ^ hs ^ "|res=" ^ kvs_string r
-          | "iter" -> kvs_string (m_iter !snap !st (bytes_of_hex (a 0)) (bytes_of_hex (a 1)))
-          | "riter" -> kvs_string (m_iter_rev !snap !st (bytes_of_hex (a 0)) (bytes_of_hex (a 1)))
-          | "staging" -> let h = int_of_nat (staging_handle !st) in st := step true !st OStaging; "h " ^ string_of_int h
-          | "release" -> apply (ORelease (nat_of_int (int_of_string (a 0))))
-          | "cleanup" -> apply (OCleanup (nat_of_int (int_of_string (a 0))))
-          | "cp" -> Hashtbl.replace cps (a 0) (checkpoint_pos !st); apply OCheckpoint
-          | "revert" -> apply (ORevert (Hashtbl.find cps (a 0)))
+          | "iter" -> kvs_string (m_iter !snap (b ()) (bytes_of_hex (a 0)) (bytes_of_hex (a 1)))
+          | "riter" -> kvs_string (m_iter_rev !snap (b ()) (bytes_of_hex (a 0)) (bytes_of_hex (a 1)))
+          | "gflags" -> (match x_get_flags !st (bytes_of_hex (a 0)) with Some f -> "f " ^ dec_of_n f | None -> "nf")
+          | "len" -> "len " ^ dec_of_n !st.x_len ^ " size " ^ dec_of_n !st.x_size
+          | "iterf" | "riterf" ->
+              let l = x_iter_flags !st (bytes_of_hex (a 0)) (bytes_of_hex (a 1)) in
+              let l = if kind = "riterf" then List.rev l else l in
+              if l = [] then "-" else
+              String.concat "," (List.map (fun ((k, f), v) ->
+                hex_of_bytes k ^ ":" ^ dec_of_n f ^ ":" ^ (match v with Some v -> hex_of_bytes v | None -> "nil")) l)
+          | "sget" -> (match x_snap_get !st (bytes_of_hex (a 0)) with Some v -> "v " ^ hex_of_bytes v | None -> "nf")
+          | "siter" -> kvs_string (x_snap_iter !st (bytes_of_hex (a 0)) (bytes_of_hex (a 1)))
+          | "sriter" -> kvs_string (x_snap_iter_rev !st (bytes_of_hex (a 0)) (bytes_of_hex (a 1)))
+          | "hist" -> (match x_history !st (bytes_of_hex (a 0)) with
+                       | [] -> "nf" | l -> "h " ^ String.concat "," (List.map hex_of_bytes l))
+          | "inspect" ->
+              let l = x_inspect_stage !st (nat_of_int (int_of_string (a 0))) in
+              if l = [] then "-" else
+              String.concat "," (List.map (fun ((k, f), v) -> hex_of_bytes k ^ ":" ^ dec_of_n f ^ ":" ^ hex_of_bytes v) l)
+          | "staging" -> let h = int_of_nat (staging_handle (b ())) in ignore (apply XStaging); "h " ^ string_of_int h
+          | "release" -> apply (XRelease (nat_of_int (int_of_string (a 0))))
+          | "cleanup" -> apply (XCleanup (nat_of_int (int_of_string (a 0))))
+          | "cp" -> Hashtbl.replace cps (a 0) (checkpoint_pos (b ())); apply XCheckpoint
+          | "revert" -> apply (XRevert (Hashtbl.find cps (a 0)))
           | _ -> "unknown-op"
         with e -> "model-exception " ^ Printexc.to_string e) in
         incr n; bump (!target ^ ":" ^ kind);
